@@ -57,10 +57,10 @@ def run(cx: Cx):
     check_keyed_delete(cx, rem.qualname, ALOC, Attr(Sym(rem.params[0]), 'agents'), Sym(rem.params[1]), unroll=1)
     sites = cx.effects.sites_of(ALOC)
     for s in sites:
-        if s.fn.qualname in (add.qualname, rem.qualname):
+        if s.owner_q in (add.qualname, rem.qualname):
             continue
         v = s.ev.data.get('value')
-        if s.fn.qualname == env.qualname + '.__init__' and s.kind == 'rebind' and isinstance(v, Fresh) and v.kind == 'dict' and not v.items:
+        if s.owner_q == env.qualname + '.__init__' and s.kind == 'rebind' and isinstance(v, Fresh) and v.kind == 'dict' and not v.items:
             cx.ok('R-DISC', 'agents initialised as an empty dict', where=s.where, function=s.fn.qualname)
         else:
             cx.violation('R-DISC', s.fn.qualname, f"agents-{s.kind}",
